@@ -6,9 +6,10 @@ From GixV.C19 Require Import Model Spec ProofsSearch ProofsParse ProofsLocate Pr
 
 (* names that try_find looks up verbatim: valid, "looks like a full name", and not rewritten or
    refused by transform_full_name_for_lookup (e.g. everything under refs/heads/, refs/tags/,
-   refs/remotes/; not refs/worktree/…, not HEAD-like pseudo refs, not main-worktree/…) *)
+   refs/remotes/; not refs/worktree/…, not main-worktree/…; slash-less names such as HEAD or DEV are partial names
+   and go through the refs/, refs/tags/, refs/heads/, refs/remotes/ expansion) *)
 Definition is_direct (n : bytes) : bool :=
-  valid_partial_name n && looks_like_full_name n &&
+  valid_partial_name n && looks_like_full_name false n &&
   match transform_full_name_for_lookup n with Some m => bytes_eqb m n | None => false end.
 
 Lemma L_try_find_direct a n : is_direct n = true -> try_find a n = try_find_full_name a n.
